@@ -278,36 +278,6 @@ Definition spec_events (rs : list field) (o : outcome X) : list bevent :=
       end
   end.
 
-(* the literal pipeline (cook_results + the template's tail) refines it *)
-Lemma method_returns_refines_spec : forall rs o,
-  wf_results rs = true -> accepted rs ->
-  method_returns decode rs o = inr (spec_returns rs o, spec_events rs o).
-Proof.
-  intros rs o Hwf Hacc. unfold method_returns.
-  destruct (cook_results_fatal_or_cooked rs) as [(f & _ & Hn)|(c & Hc & _)]; [contradiction|].
-  rewrite Hc. apply cook_results_accepts in Hc as (_ & Hnils & Hres). f_equal.
-  unfold run_tail, spec_returns, spec_events, errret. destruct o as [st x|r].
-  - rewrite Hnils. reflexivity.
-  - pose proof (classify_spec (r_status r) (r_body r)) as Hcl.
-    pose proof (classify_events (r_status r) (r_body r)) as Hev.
-    destruct (classify (r_status r) (r_body r)) as [e ev]; simpl in Hcl, Hev; subst e ev.
-    rewrite Hres. destruct (declared_result rs) as [[ty isptr]|] eqn:Hd.
-    + pose proof (declared_result_type_nonempty rs ty isptr Hwf Hd) as Hne.
-      destruct (String.eqb_spec ty ""); [contradiction|].
-      unfold status_error. destruct (class_of (r_status r)); simpl; try reflexivity.
-      destruct (decode ty (r_body r)) as [v [[|x]|]]; reflexivity.
-    + simpl. unfold status_error. destruct (class_of (r_status r)); reflexivity.
-Qed.
-
-(* a rejected signature yields no method at all *)
-Lemma method_returns_rejected : forall rs o,
-  ~ accepted rs -> exists f, method_returns decode rs o = inl f.
-Proof.
-  intros rs o Hn. unfold method_returns.
-  destruct (cook_results_fatal_or_cooked rs) as [(f & Hf & _)|(c & _ & Ha)]; [|contradiction].
-  exists f. rewrite Hf. reflexivity.
-Qed.
-
 (* ------------------------------------------------------------------ *)
 (* consequences in the words of the property                            *)
 
@@ -472,6 +442,56 @@ Proof.
 Qed.
 
 End Accepted.
+
+(* the literal pipeline (cook_results, the rendered statements, their
+   execution) refines the declarative account *)
+Lemma method_returns_refines_spec : forall bv rs o,
+  wf_results rs = true -> accepted rs -> scenario_ok bv o = true ->
+  method_returns decode bv rs o = inr (Some (spec_returns rs o, spec_events rs o)).
+Proof.
+  intros bv rs o Hwf Hacc Hsc. unfold method_returns.
+  destruct (cook_results_fatal_or_cooked rs) as [(f & _ & Hn)|(c & Hc & _)]; [contradiction|].
+  rewrite Hc. apply cook_results_accepts in Hc as (_ & Hnils & Hres). do 2 f_equal.
+  destruct c as [[cty cptr] cn]; simpl in Hnils, Hres; subst cn.
+  unfold emit, errret; cbn [ck_result ck_nils].
+  destruct (declared_result rs) as [[ty p]|] eqn:Hd.
+  - (* a result is declared: three fields *)
+    pose proof (declared_result_type_nonempty rs ty p Hwf Hd) as Hne.
+    inversion Hres; subst cty cptr; clear Hres.
+    destruct (String.eqb_spec ty ""); [contradiction|].
+    assert (Hlen : List.length rs = 3%nat).
+    { destruct (accepted_length rs Hwf Hacc) as [H|H]; auto.
+      apply (declared_result_none_iff rs Hwf Hacc) in H. congruence. }
+    rewrite Hlen. unfold spec_returns, spec_events. rewrite Hd, Hlen.
+    destruct o as [st x|r].
+    + destruct st, bv; try discriminate Hsc; reflexivity.
+    + pose proof (classify_spec (r_status r) (r_body r)) as Hcl.
+      pose proof (classify_events (r_status r) (r_body r)) as Hev.
+      destruct bv; cbn -[classify];
+        destruct (classify (r_status r) (r_body r)) as [e ev]; simpl in Hcl, Hev; subst e ev;
+        unfold status_error; destruct (class_of (r_status r)); cbn; try reflexivity;
+        destruct (decode ty (r_body r)) as [v [[|x]|]]; cbn; destruct p; reflexivity.
+  - (* no result: two fields *)
+    inversion Hres; subst cty cptr; clear Hres.
+    assert (Hlen : List.length rs = 2%nat) by (apply (declared_result_none_iff rs Hwf Hacc); assumption).
+    rewrite Hlen. unfold spec_returns, spec_events. rewrite Hd, Hlen.
+    destruct o as [st x|r].
+    + destruct st, bv; try discriminate Hsc; reflexivity.
+    + pose proof (classify_spec (r_status r) (r_body r)) as Hcl.
+      pose proof (classify_events (r_status r) (r_body r)) as Hev.
+      destruct bv; cbn -[classify];
+        destruct (classify (r_status r) (r_body r)) as [e ev]; simpl in Hcl, Hev; subst e ev;
+        unfold status_error; destruct (class_of (r_status r)); reflexivity.
+Qed.
+
+(* a rejected signature yields no method at all *)
+Lemma method_returns_rejected : forall bv rs o,
+  ~ accepted rs -> exists f, method_returns decode bv rs o = inl f.
+Proof.
+  intros bv rs o Hn. unfold method_returns.
+  destruct (cook_results_fatal_or_cooked rs) as [(f & Hf & _)|(c & _ & Ha)]; [|contradiction].
+  exists f. rewrite Hf. reflexivity.
+Qed.
 
 (* the body is closed exactly once, as the last thing, on every path that
    received a response; it is read exactly for 4xx, >= 500 and a decoded 2xx *)
@@ -723,38 +743,55 @@ Section Literal.
 Variable V X : Type.
 Variable decode : string -> body X -> dec_out V X.
 
-Lemma method_returns_inv : forall rs o slots ev,
+Lemma method_returns_inv : forall bv rs o slots ev,
   wf_results rs = true ->
-  method_returns decode rs o = inr (slots, ev) ->
-  accepted rs /\ slots = spec_returns V X decode rs o /\ ev = spec_events X rs o.
+  method_returns decode bv rs o = inr (Some (slots, ev)) ->
+  accepted rs /\ scenario_ok bv o = true /\
+  slots = spec_returns V X decode rs o /\ ev = spec_events X rs o.
 Proof.
-  intros rs o slots ev Hwf H.
+  intros bv rs o slots ev Hwf H.
   assert (Hacc : accepted rs).
   { unfold method_returns in H. destruct (cook_results rs) as [f|c] eqn:Hc; [discriminate|].
     apply cook_results_accepts in Hc; tauto. }
-  rewrite (method_returns_refines_spec V X decode rs o Hwf Hacc) in H. inversion H; auto.
+  destruct (scenario_ok bv o) eqn:Hsc.
+  - rewrite (method_returns_refines_spec V X decode bv rs o Hwf Hacc Hsc) in H. inversion H; auto.
+  - (* the failing call is not part of the method: nothing is returned *)
+    exfalso. destruct o as [[] x|r]; try discriminate Hsc. destruct bv; [discriminate Hsc|].
+    unfold method_returns in H. destruct (cook_results rs) as [f|c]; [discriminate|].
+    inversion H as [H1]. unfold emit in H1. destruct (ck_result c) as [ty p].
+    cbn in H1. destruct (String.eqb ty ""); discriminate H1.
 Qed.
 
 (* a client method exists exactly for the accepted signatures *)
-Lemma mr_exists_iff : forall rs o,
-  wf_results rs = true ->
-  ((exists res, method_returns decode rs o = inr res) <-> accepted rs).
+Lemma mr_exists_iff : forall bv rs o,
+  wf_results rs = true -> scenario_ok bv o = true ->
+  ((exists res, method_returns decode bv rs o = inr (Some res)) <-> accepted rs).
 Proof.
-  intros rs o Hwf. split.
+  intros bv rs o Hwf Hsc. split.
   - intros ([slots ev] & H). apply method_returns_inv in H; tauto.
   - intros Hacc. eexists. apply method_returns_refines_spec; assumption.
 Qed.
 
-Lemma mr_view : forall rs o slots ev,
-  wf_results rs = true -> method_returns decode rs o = inr (slots, ev) ->
+(* a json.Marshal failure cannot happen in a method that sends no body *)
+Lemma mr_impossible_scenario : forall rs x,
+  wf_results rs = true -> accepted rs ->
+  method_returns decode false rs (OFail StMarshal x) = inr None.
+Proof.
+  intros rs x Hwf Hacc. unfold method_returns.
+  destruct (cook_results_fatal_or_cooked rs) as [(f & _ & Hn)|(c & Hc & _)]; [contradiction|].
+  rewrite Hc. unfold emit. destruct (ck_result c) as [ty p]. cbn. destruct (String.eqb ty ""); reflexivity.
+Qed.
+
+Lemma mr_view : forall bv rs o slots ev,
+  wf_results rs = true -> method_returns decode bv rs o = inr (Some (slots, ev)) ->
   exists rv, view slots = Some rv /\ (rv_result rv = None <-> declared_result rs = None).
 Proof.
-  intros rs o slots ev Hwf H. apply method_returns_inv in H as (Hacc & -> & _); auto.
+  intros bv rs o slots ev Hwf H. apply method_returns_inv in H as (Hacc & _ & -> & _); auto.
   apply returns_view; assumption.
 Qed.
 
-Lemma mr_nil_error_iff : forall rs o slots ev rv,
-  wf_results rs = true -> method_returns decode rs o = inr (slots, ev) -> view slots = Some rv ->
+Lemma mr_nil_error_iff : forall bv rs o slots ev rv,
+  wf_results rs = true -> method_returns decode bv rs o = inr (Some (slots, ev)) -> view slots = Some rv ->
   (rv_err rv = SNil <->
    exists r, o = OResp r /\ 200 <= r_status r < 300 /\
      match declared_result rs with
@@ -762,39 +799,39 @@ Lemma mr_nil_error_iff : forall rs o slots ev rv,
      | Some (ty, _) => forall x, snd (decode ty (r_body r)) <> Some (DOther x)
      end).
 Proof.
-  intros rs o slots ev rv Hwf H Hv. apply method_returns_inv in H as (Hacc & -> & _); auto.
+  intros bv rs o slots ev rv Hwf H Hv. apply method_returns_inv in H as (Hacc & _ & -> & _); auto.
   apply nil_error_iff; assumption.
 Qed.
 
-Lemma mr_client_error : forall rs r slots ev rv,
-  wf_results rs = true -> method_returns decode rs (OResp r) = inr (slots, ev) -> view slots = Some rv ->
+Lemma mr_client_error : forall bv rs r slots ev rv,
+  wf_results rs = true -> method_returns decode bv rs (OResp r) = inr (Some (slots, ev)) -> view slots = Some rv ->
   400 <= r_status r < 500 ->
   rv_err rv = SErr (EText ("client error " ++ dec (r_status r) ++ ": " ++ b_data (r_body r))) /\
   rv_resp rv = SResp r /\ (rv_result rv = None \/ rv_result rv = Some SNil).
 Proof.
-  intros rs r slots ev rv Hwf H Hv Hs. apply method_returns_inv in H as (Hacc & -> & _); auto.
+  intros bv rs r slots ev rv Hwf H Hv Hs. apply method_returns_inv in H as (Hacc & _ & -> & _); auto.
   eapply status_error_returned; eauto.
   unfold status_error. apply class_of_client in Hs. rewrite Hs. reflexivity.
 Qed.
 
-Lemma mr_server_error : forall rs r slots ev rv,
-  wf_results rs = true -> method_returns decode rs (OResp r) = inr (slots, ev) -> view slots = Some rv ->
+Lemma mr_server_error : forall bv rs r slots ev rv,
+  wf_results rs = true -> method_returns decode bv rs (OResp r) = inr (Some (slots, ev)) -> view slots = Some rv ->
   500 <= r_status r ->
   rv_err rv = SErr (EText ("server error " ++ dec (r_status r) ++ ": " ++ b_data (r_body r))) /\
   rv_resp rv = SResp r /\ (rv_result rv = None \/ rv_result rv = Some SNil).
 Proof.
-  intros rs r slots ev rv Hwf H Hv Hs. apply method_returns_inv in H as (Hacc & -> & _); auto.
+  intros bv rs r slots ev rv Hwf H Hv Hs. apply method_returns_inv in H as (Hacc & _ & -> & _); auto.
   eapply status_error_returned; eauto.
   unfold status_error. apply class_of_server in Hs. rewrite Hs. reflexivity.
 Qed.
 
-Lemma mr_unsupported : forall rs r slots ev rv,
-  wf_results rs = true -> method_returns decode rs (OResp r) = inr (slots, ev) -> view slots = Some rv ->
+Lemma mr_unsupported : forall bv rs r slots ev rv,
+  wf_results rs = true -> method_returns decode bv rs (OResp r) = inr (Some (slots, ev)) -> view slots = Some rv ->
   r_status r < 200 \/ 300 <= r_status r < 400 ->
   rv_err rv = SErr (EText ("not supported error " ++ dec (r_status r))) /\
   rv_resp rv = SResp r /\ (rv_result rv = None \/ rv_result rv = Some SNil).
 Proof.
-  intros rs r slots ev rv Hwf H Hv Hs. apply method_returns_inv in H as (Hacc & -> & _); auto.
+  intros bv rs r slots ev rv Hwf H Hv Hs. apply method_returns_inv in H as (Hacc & _ & -> & _); auto.
   eapply status_error_returned; eauto.
   unfold status_error. apply class_of_unsupported in Hs. rewrite Hs. reflexivity.
 Qed.
@@ -807,96 +844,96 @@ Lemma status_classes_partition : forall s : Z,
   ((s < 200 \/ 300 <= s < 400) /\ ~ 200 <= s < 300 /\ ~ 400 <= s < 500 /\ ~ 500 <= s).
 Proof. intros s. lia. Qed.
 
-Lemma mr_failure : forall rs st x slots ev,
-  wf_results rs = true -> method_returns decode rs (OFail st x) = inr (slots, ev) ->
+Lemma mr_failure : forall bv rs st x slots ev,
+  wf_results rs = true -> method_returns decode bv rs (OFail st x) = inr (Some (slots, ev)) ->
   slots = (repeat SNil (List.length rs - 1) ++ [SErr (EForeign x)])%list /\ ev = [] /\
   forall rv, view slots = Some rv ->
     rv_err rv = SErr (EForeign x) /\ rv_resp rv = SNil /\ (rv_result rv = None \/ rv_result rv = Some SNil).
 Proof.
-  intros rs st x slots ev Hwf H. apply method_returns_inv in H as (Hacc & -> & ->); auto.
+  intros bv rs st x slots ev Hwf H. apply method_returns_inv in H as (Hacc & _ & -> & ->); auto.
   split; [reflexivity|]. split; [reflexivity|]. intros rv Hv.
   eapply fail_view; eauto.
 Qed.
 
-Lemma mr_response_always : forall rs r slots ev rv,
-  wf_results rs = true -> method_returns decode rs (OResp r) = inr (slots, ev) -> view slots = Some rv ->
+Lemma mr_response_always : forall bv rs r slots ev rv,
+  wf_results rs = true -> method_returns decode bv rs (OResp r) = inr (Some (slots, ev)) -> view slots = Some rv ->
   rv_resp rv = SResp r.
 Proof.
-  intros rs r slots ev rv Hwf H Hv. apply method_returns_inv in H as (Hacc & -> & _); auto.
+  intros bv rs r slots ev rv Hwf H Hv. apply method_returns_inv in H as (Hacc & _ & -> & _); auto.
   eapply response_always_returned; eauto.
 Qed.
 
-Lemma mr_error_nil_result : forall rs o slots ev rv,
-  wf_results rs = true -> method_returns decode rs o = inr (slots, ev) -> view slots = Some rv ->
+Lemma mr_error_nil_result : forall bv rs o slots ev rv,
+  wf_results rs = true -> method_returns decode bv rs o = inr (Some (slots, ev)) -> view slots = Some rv ->
   rv_err rv <> SNil -> rv_result rv = None \/ rv_result rv = Some SNil.
 Proof.
-  intros rs o slots ev rv Hwf H Hv Hne. apply method_returns_inv in H as (Hacc & -> & _); auto.
+  intros bv rs o slots ev rv Hwf H Hv Hne. apply method_returns_inv in H as (Hacc & _ & -> & _); auto.
   eapply error_means_nil_result; eauto.
 Qed.
 
-Lemma mr_success : forall rs r ty p v de slots ev,
-  wf_results rs = true -> method_returns decode rs (OResp r) = inr (slots, ev) ->
+Lemma mr_success : forall bv rs r ty p v de slots ev,
+  wf_results rs = true -> method_returns decode bv rs (OResp r) = inr (Some (slots, ev)) ->
   200 <= r_status r < 300 -> declared_result rs = Some (ty, p) ->
   decode ty (r_body r) = (v, de) -> (forall x, de <> Some (DOther x)) ->
   slots = [if p then SAddr v else SVal v; SResp r; SNil].
 Proof.
-  intros rs r ty p v de slots ev Hwf H Hs Hd Hdec Hok.
-  apply method_returns_inv in H as (Hacc & -> & _); auto.
+  intros bv rs r ty p v de slots ev Hwf H Hs Hd Hdec Hok.
+  apply method_returns_inv in H as (Hacc & _ & -> & _); auto.
   eapply success_returns; eauto.
 Qed.
 
-Lemma mr_success_no_result : forall rs r slots ev,
-  wf_results rs = true -> method_returns decode rs (OResp r) = inr (slots, ev) ->
+Lemma mr_success_no_result : forall bv rs r slots ev,
+  wf_results rs = true -> method_returns decode bv rs (OResp r) = inr (Some (slots, ev)) ->
   200 <= r_status r < 300 -> declared_result rs = None ->
   slots = [SResp r; SNil].
 Proof.
-  intros rs r slots ev Hwf H Hs Hd. apply method_returns_inv in H as (Hacc & -> & _); auto.
+  intros bv rs r slots ev Hwf H Hs Hd. apply method_returns_inv in H as (Hacc & _ & -> & _); auto.
   apply success_no_result; assumption.
 Qed.
 
 (* an empty body yields the zero value, given json's behaviour on an empty stream *)
-Lemma mr_empty_body : forall (zero : string -> V) rs r ty p slots ev,
+Lemma mr_empty_body : forall (zero : string -> V) bv rs r ty p slots ev,
   (forall t, decode t {| b_data := ""; b_fault := None |} = (zero t, Some DEof)) ->
-  wf_results rs = true -> method_returns decode rs (OResp r) = inr (slots, ev) ->
+  wf_results rs = true -> method_returns decode bv rs (OResp r) = inr (Some (slots, ev)) ->
   200 <= r_status r < 300 -> declared_result rs = Some (ty, p) ->
   r_body r = {| b_data := ""; b_fault := None |} ->
   slots = [if p then SAddr (zero ty) else SVal (zero ty); SResp r; SNil].
 Proof.
-  intros zero rs r ty p slots ev Hlaw Hwf H Hs Hd Hb.
-  apply (mr_success rs r ty p (zero ty) (Some DEof) slots ev); auto.
+  intros zero bv rs r ty p slots ev Hlaw Hwf H Hs Hd Hb.
+  apply (mr_success bv rs r ty p (zero ty) (Some DEof) slots ev); auto.
   - rewrite Hb. apply Hlaw.
   - intros x; discriminate.
 Qed.
 
-Lemma mr_decode_error : forall rs r ty p v x slots ev,
-  wf_results rs = true -> method_returns decode rs (OResp r) = inr (slots, ev) ->
+Lemma mr_decode_error : forall bv rs r ty p v x slots ev,
+  wf_results rs = true -> method_returns decode bv rs (OResp r) = inr (Some (slots, ev)) ->
   200 <= r_status r < 300 -> declared_result rs = Some (ty, p) ->
   decode ty (r_body r) = (v, Some (DOther x)) ->
   slots = [SNil; SResp r; SErr (EForeign x)].
 Proof.
-  intros rs r ty p v x slots ev Hwf H Hs Hd Hdec.
-  apply method_returns_inv in H as (Hacc & -> & _); auto.
+  intros bv rs r ty p v x slots ev Hwf H Hs Hd Hdec.
+  apply method_returns_inv in H as (Hacc & _ & -> & _); auto.
   eapply decode_error_returns; eauto.
 Qed.
 
-Lemma mr_arity : forall rs o slots ev,
+Lemma mr_arity : forall bv rs o slots ev,
   wf_results rs = true -> single_names rs = true ->
-  method_returns decode rs o = inr (slots, ev) ->
+  method_returns decode bv rs o = inr (Some (slots, ev)) ->
   List.length slots = declared_arity rs.
 Proof.
-  intros rs o slots ev Hwf Hsn H. apply method_returns_inv in H as (Hacc & -> & _); auto.
+  intros bv rs o slots ev Hwf Hsn H. apply method_returns_inv in H as (Hacc & _ & -> & _); auto.
   rewrite declared_arity_single by assumption. apply returns_length; assumption.
 Qed.
 
-Lemma mr_body_closed_once : forall rs r slots ev,
-  wf_results rs = true -> method_returns decode rs (OResp r) = inr (slots, ev) ->
+Lemma mr_body_closed_once : forall bv rs r slots ev,
+  wf_results rs = true -> method_returns decode bv rs (OResp r) = inr (Some (slots, ev)) ->
   exists pre, ev = (pre ++ [BClose])%list /\ ~ In BClose pre.
 Proof.
-  intros rs r slots ev Hwf H. apply method_returns_inv in H as (_ & _ & ->); auto.
+  intros bv rs r slots ev Hwf H. apply method_returns_inv in H as (_ & _ & _ & ->); auto.
   apply events_close_last.
 Qed.
 
-Lemma mr_rejected : forall rs o, ~ accepted rs -> exists f, method_returns decode rs o = inl f.
+Lemma mr_rejected : forall bv rs o, ~ accepted rs -> exists f, method_returns decode bv rs o = inl f.
 Proof. intros. apply method_returns_rejected; assumption. Qed.
 
 End Literal.
@@ -921,13 +958,16 @@ Definition multi_name_witness : list field :=
   [{| f_names := ["a"; "b"]; f_type := TStar (TSel "http" "Response") |};
    {| f_names := ["err"]; f_type := TIdent "error" |}].
 
-Lemma multi_name_refuted : forall V X (decode : string -> body X -> dec_out V X) o,
-  exists rs slots ev, wf_results rs = true /\ method_returns decode rs o = inr (slots, ev) /\
+Lemma multi_name_refuted : forall V X (decode : string -> body X -> dec_out V X) bv o,
+  scenario_ok bv o = true ->
+  exists rs slots ev, wf_results rs = true /\ method_returns decode bv rs o = inr (Some (slots, ev)) /\
                       List.length slots <> declared_arity rs.
 Proof.
-  intros V X decode o. exists multi_name_witness.
+  intros V X decode bv o Hsc. exists multi_name_witness.
   destruct o as [st x|r].
-  - eexists; eexists. split; [reflexivity|]. split; [reflexivity|]. simpl. discriminate.
-  - unfold method_returns; simpl. destruct (classify (r_status r) (r_body r)) as [[e|] ev];
-      eexists; eexists; (split; [reflexivity|]; split; [reflexivity|]; simpl; discriminate).
+  - destruct st, bv; try discriminate Hsc;
+      (eexists; eexists; split; [reflexivity|]; split; [reflexivity|]; simpl; discriminate).
+  - unfold method_returns; cbn -[classify].
+    destruct bv; cbn -[classify]; destruct (classify (r_status r) (r_body r)) as [[e|] ev]; cbn;
+      (eexists; eexists; split; [reflexivity|]; split; [reflexivity|]; simpl; discriminate).
 Qed.
